@@ -19,6 +19,7 @@ def loop_head(fn, kind="WhileStmt"):
 def run(prog, chk):
     policy_objects_table(prog, chk)
     _run(prog, chk)
+    final_result_writers(prog, chk)
 
 
 def _run(prog, chk):
@@ -139,6 +140,13 @@ def _run(prog, chk):
                 dup = [s for s in p.stores(pr + "->resultCode")]
                 chk.ob("C05.engine.struct", inst + ":dup", bool(dup) and dup[-1][2] == rc,
                        "policy result code copied from the element's verdict", loc=fn.loc(ln), fn=fn, nontrivial=False)
+            # what the caller reads afterwards is what the element's evaluation wrote
+            if t != 7:
+                last_rc = [s[2] for s in p.stores(pr + "->finalResult.resultCode")][-1:]
+                last_ec = [s[2] for s in p.stores(pr + "->finalResult.errorCode")][-1:]
+                chk.ob("C05.engine.struct", inst + ":kept", last_rc == [rc] and last_ec == [ec],
+                       "after the element the final result still holds the verdict / error code its evaluation wrote (%s / %s); last stores: %s / %s"
+                       % (rc, ec, last_rc, last_ec), loc=fn.loc(ln), fn=fn, nontrivial=False)
             if p.reason == "stop":
                 st_cur = p.stores(cur)
                 chk.ob("C05.engine.struct", inst + ":step", len(st_cur) == 1 and st_cur[0][2] == CUR0 + 1,
@@ -337,3 +345,115 @@ def policy_objects_table(prog, chk):
     paths = I.run()
     ok = len(paths) == 1 and not paths[0].undetermined and paths[0].ret == 0 and I.read(paths[0], "P->fallbackPolicy") == Ptr("FB")
     chk.ob("C05.objects", "KSI_Policy_setFallback", ok, "the policy's fallback becomes the given policy", loc=fs.loc(), fn=fs)
+
+
+VERDICT_FIELDS = {"resultCode", "errorCode", "status", "statusExt", "ruleName"}
+
+
+def final_result_writers(prog, chk):
+    """"The reported result is that of the last rule evaluated": between the rule's own stores into policyResult->finalResult and the caller
+    reading it, nothing else may write the verdict.  Who-may-write rule over every unit but verification_rule.c: a store into a
+    verdict-bearing field of <policy result>->finalResult (or of the whole struct) occurs only in the reviewed places - the reset in front
+    of a rule call (its position is judged by the table above) and the constructor - and &...->finalResult is handed only to the rule
+    itself and to callees that do not write through it (or are the reviewed clean / init)."""
+    from ksirules.model import walk
+    chk.rule("C05.final", "only the rule just evaluated writes the verdict in finalResult (who-may-write over all units)", floor=4)
+    ALLOWED_STORE = {("Rule_verify", "resultCode"): "reset to NA in front of the element (position judged by C05.engine.struct)",
+                     ("Rule_verify", "errorCode"): "reset to GEN-2 in front of the element"}
+    ALLOWED_CALLEE = {"KSI_RuleVerificationResult_clean": "reset in front of the element / release", "KSI_RuleVerificationResult_init": "constructor"}
+
+    def through_final(l):
+        """field path below finalResult if the lvalue goes through a member called finalResult, else None"""
+        path = []
+        cur = strip(l)
+        while isinstance(cur, dict) and cur.get("k") in ("mem", "idx", "un", "cast"):
+            if cur.get("k") == "mem":
+                if cur["f"] == "finalResult":
+                    return list(reversed(path))
+                path.append(cur["f"])
+                cur = strip(cur.get("b"))
+            elif cur.get("k") == "idx":
+                cur = strip(cur.get("b"))
+            else:
+                cur = strip(cur.get("e"))
+        return None
+
+    def writes_through(g, pname, depth=0):
+        """does g store through its pointer parameter pname (a verdict field or the whole object), or hand it on to something that does"""
+        for b, i, n in g.nodes():
+            if n.get("k") == "asg":
+                l = strip(n["l"])
+                base = l
+                fields = []
+                while isinstance(base, dict) and base.get("k") in ("mem", "un", "cast"):
+                    if base.get("k") == "mem":
+                        fields.append(base["f"])
+                        base = strip(base.get("b"))
+                    else:
+                        base = strip(base.get("e"))
+                if is_var_named(base, pname) and l.get("k") in ("mem", "un") and (not fields or fields[-1] in VERDICT_FIELDS):
+                    return g.loc(g.elem_line(b, i))
+            if n.get("k") == "call" and depth < 3:
+                for k, a in enumerate(n["a"]):
+                    if is_var_named(strip(a), pname) and n.get("fn") and n["fn"] not in ALLOWED_CALLEE:
+                        for h in prog.functions.get(n["fn"], []):
+                            if k < len(h.params):
+                                w = writes_through(h, h.params[k]["n"], depth + 1)
+                                if w:
+                                    return w
+                        if n["fn"] in ("memcpy", "memmove", "memset") and k == 0:
+                            return g.loc(g.elem_line(b, i))
+        return None
+
+    def is_var_named(x, name):
+        return isinstance(x, dict) and x.get("k") == "var" and x.get("n") == name
+
+    nstores = ncalls = 0
+    for fn in sorted(prog.all_functions(), key=lambda f: (f.unit, f.line)):
+        if fn.unit == "verification_rule.c":
+            continue
+        for b, i, n in fn.nodes():
+            if n.get("k") == "asg":
+                path = through_final(n["l"])
+                if path is None or (path and path[0] not in VERDICT_FIELDS):
+                    continue
+                nstores += 1
+                fld = path[0] if path else "<whole result>"
+                why = ALLOWED_STORE.get((fn.name, fld))
+                chk.ob("C05.final", "store:%s:finalResult.%s" % (fn.name, fld), why is not None,
+                       "%s writes finalResult.%s: %s" % (fn.name, fld, why or "NOT one of the reviewed writers - the verdict reported is no longer the one the last rule wrote"),
+                       loc=fn.loc(fn.elem_line(b, i)), fn=fn)
+            elif n.get("k") == "un" and n.get("op") == "&" and through_final(n["e"]) == []:
+                # the address of the whole final result: must be an argument of a call
+                site = None
+                for b2, i2, c in fn.calls():
+                    if b2 == b and i2 == i or any(m is n for a in c["a"] for m in walk(a)):
+                        for k, a in enumerate(c["a"]):
+                            if any(m is n for m in walk(a)):
+                                site = (c, k)
+                if site is None:
+                    chk.ob("C05.final", "alias:%s" % fn.name, False, "%s takes the address of finalResult outside a call argument: later stores through the alias are not tracked"
+                           % fn.name, loc=fn.loc(fn.elem_line(b, i)), fn=fn)
+                    continue
+                c, k = site
+                ncalls += 1
+                callee = c.get("fn")
+                if callee is None:
+                    chk.ob("C05.final", "arg:%s:<rule>" % fn.name, fn.name == "Rule_verify", "the rule function itself receives &finalResult (only in Rule_verify)",
+                           loc=fn.loc(fn.elem_line(b, i)), fn=fn, nontrivial=False)
+                    continue
+                if callee in ALLOWED_CALLEE:
+                    chk.ob("C05.final", "arg:%s:%s" % (fn.name, callee), True, ALLOWED_CALLEE[callee], loc=fn.loc(fn.elem_line(b, i)), fn=fn, nontrivial=False)
+                    continue
+                w = None
+                defs = prog.functions.get(callee, [])
+                for h in defs:
+                    if k < len(h.params):
+                        w = w or writes_through(h, h.params[k]["n"])
+                if not defs:
+                    w = "no definition in the analysed units"
+                chk.ob("C05.final", "arg:%s:%s" % (fn.name, callee), w is None,
+                       "%s receives &finalResult from %s and %s" % (callee, fn.name, "does not write the verdict through it" if w is None else "writes through it (%s)" % w),
+                       loc=fn.loc(fn.elem_line(b, i)), fn=fn)
+    if nstores < 2 or ncalls < 4:
+        raise AnalysisBroken("C05.final: only %d stores / %d address uses of finalResult found" % (nstores, ncalls))
